@@ -43,7 +43,7 @@ var DefaultWeights = map[string]int{
 	"reconcile": 30, "round": 3, "workload": 10, "gc": 3,
 	"adv-create": 3, "adv-reown": 3, "adv-relabel": 3, "adv-edit": 3, "adv-delete": 2, "adv-recreate": 2, "adv-finalizer": 2,
 	"user-next-revision": 3, "user-pause": 2, "user-unpause": 2, "user-archive": 2, "user-delete": 1, "restart": 1,
-	"fault": 0, "adv-interpose": 0, "user-touch-spec": 0,
+	"fault": 0, "adv-interpose": 0, "user-touch-spec": 0, "adv-delete-phase": 0,
 }
 
 type ident struct {
@@ -554,6 +554,60 @@ func (g *Rand) Step() {
 				}
 			},
 		})
+	case "adv-delete-phase":
+		// a third party deletes the object of a delegated phase out of band. Half of the time the story is played on:
+		// the phase controller finalizes it, the ObjectSet re-creates it (new UID) and the user then archives or deletes
+		// the ObjectSet before it has reconciled successfully again.
+		type pk struct {
+			kind string
+			key  types.NamespacedName
+		}
+		var ks []pk
+		for _, kind := range []string{"ObjectSetPhase", "ClusterObjectSetPhase"} {
+			for _, k := range driver.Keys(e.W.Store, kind) {
+				ks = append(ks, pk{kind, k})
+			}
+		}
+		if len(ks) == 0 {
+			return
+		}
+		k := ks[r.Intn(len(ks))]
+		playOn, archive := r.Intn(2) == 0, r.Intn(2) == 0
+		if !e.Delete("adversary", false, PKO(k.kind), k.key.Namespace, k.key.Name) {
+			return
+		}
+		e.Count("adv_phase_objects_deleted")
+		if !playOn {
+			return
+		}
+		reconcileKind := func(kind string, name string) {
+			for _, wk := range e.W.AllWork() {
+				if driver.CtrlKind[wk.Ctrl] == kind && wk.Key.Name == name && wk.Key.Namespace == k.key.Namespace {
+					e.Reconcile(wk.Ctrl, wk.Key)
+				}
+			}
+		}
+		for i := 0; i < 3 && e.W.Store.Peek(PKO(k.kind).GroupKind(), k.key.Namespace, k.key.Name) != nil; i++ {
+			reconcileKind(k.kind, k.key.Name)
+		}
+		var set string
+		for _, s := range g.existingSets() {
+			if strings.HasPrefix(k.key.Name, s+"-") && len(s) > len(set) {
+				set = s
+			}
+		}
+		if set == "" {
+			return
+		}
+		reconcileKind(g.SetKind, set)
+		if archive {
+			e.Mutate("user", false, PKO(g.SetKind), g.SetNS, set, "lifecycleState=Archived", func(u *unstructured.Unstructured) {
+				_ = unstructured.SetNestedField(u.Object, "Archived", "spec", "lifecycleState")
+			})
+		} else {
+			e.Delete("user", false, PKO(g.SetKind), g.SetNS, set)
+		}
+		e.Count("adv_phase_recreated_then_teardown")
 	case "user-touch-spec":
 		// a spec change that bumps the generation without changing the rollout (immutable fields stay)
 		sets := g.existingSets()
